@@ -103,7 +103,8 @@ CHECKS = {
                  "pairs, 1 otherwise; gjk.gjk's simplex is handed to epa in all 24 row permutations (<=1 deviation) or one even and "
                  "one odd permutation. Polytope pairs are judged exactly by exhaustive SAT-axis enumeration (|mtv| = depth, residual "
                  "overlap/gap after translation, both 1e-6*L, success required); smooth pairs by sound one-sided bounds."
-                 " Interpenetrations down to 1e-6 and 1e-7 of the size are part of the placement alphabet."),
+                 " Interpenetrations down to 1e-6 and 1e-7 of the size are part of the placement alphabet."
+                 " Read-only invariant in every state: the support values of both colliders along the six axis directions are the same after gjk + epa as before."),
         "design_ref": "DESIGN.md 5 C07",
         "note": "Only well-formed hand-overs are judged: all four simplex rows must be support points gjk really evaluated and the origin must be strictly inside (gjk returns uninitialised rows otherwise). KF-C07-epa-capacity-icosphere is matched by class.",
         "technique": "bounded-exhaustive enumeration of overlapping scenes x simplex windings on the real gjk+epa vs exhaustive SAT-axis reference",
@@ -135,7 +136,7 @@ CHECKS = {
                  "face centre) moved along the normal by -s..-2tol and +2tol..+s; each point is classified exactly by the reference "
                  "model (inscribed ball >= tol => must be True, distance >= tol => must be False), evaluated as a batch and as "
                  "singletons, and cross-checked with point_to_disk/box/ellipsoid/cylinder and the collider support functions."
-                 " Extra sizes: ellipsoid with radii equal up to 1e-5 relative, cylinder with radius = length/2; convex-mesh predicate also on the triangles produced by the library's own make_convex_mesh (origin outside the hull, unreferenced interior vertex)."),
+                 " Extra sizes: ellipsoid with radii equal up to 1e-5 relative, exact ties between size parameters (ellipsoids with three / two equal radii, capsule / cylinder / cone with radius = height), cylinder with radius = length/2; convex-mesh predicate also on the triangles produced by the library's own make_convex_mesh (origin outside the hull, unreferenced interior vertex)."),
         "design_ref": "DESIGN.md 5 C13",
         "note": "Disk (zero thickness): 'inside' is only asserted for points exactly in the plane (axis-aligned normals). Points closer than tol to the boundary are not judged.",
         "technique": "bounded-exhaustive enumeration of shape lattice x constructed boundary-offset points on the real predicates vs exact reference classification",
@@ -162,7 +163,7 @@ CHECKS = {
     "C06": {
         "text": ("Four generated URDF robots (3-link chain, 4-link chain with prismatic joints, branching tree with asymmetric generated "
                  "whitelists, gripper with prefix link names, child links declared before the parent, mounted on a rotated base 1e3 units "
-                 "from the origin with a 4 mm prismatic jog) with sphere/box/cylinder geometry plus capsule, cone and mesh colliders added with add_collider: every edge of "
+                 "from the origin with a 4 mm prismatic jog) with sphere/box/cylinder geometry plus capsule, cone and mesh colliders (built from one shared pose array) and two spheres (built from one shared centre array) added with add_collider: every edge of "
                  "the joint-configuration graph (all single-joint moves between all lattice configurations, 27/54/36/12 configurations) and "
                  "all move sequences of length <= 3 are executed on a live BVH (set_joint + update_collider_poses). In every state: collider "
                  "poses = transform manager; aabb_overlapping_colliders (all own colliders with/without whitelist, 6 external queries), "
